@@ -35,7 +35,8 @@ CONSTANTS
   NoFallbackMove,       \* legacy: no best move when the first iteration was cut (unwrap panics)
   BestBeforeClear,      \* legacy: bestmove is printed before the flag is cleared
   EofLoops,             \* legacy: end of input is ignored (endless loop)
-  ParserPanics          \* legacy: some malformed lines kill the input thread
+  ParserPanics,         \* legacy: some malformed lines kill the input thread
+  Disciplined           \* the GUI sends a further go only after stop or after seeing bestmove (UCI discipline)
 
 Commands == {"go_inf", "go_lim", "stop", "position_ok", "position_bad", "isready", "newgame", "junk", "quit"}
 IsGo(c) == c \in {"go_inf", "go_lim"}
@@ -90,7 +91,7 @@ G_Send(c) ==
   /\ ~closed /\ nsent < MaxCmds /\ c \in Vocabulary
   /\ mainpc \notin {"exit", "dead"}
   /\ IsGo(c) => /\ goSent < MaxSearch
-                /\ (TotalBests = goSent \/ stopSince)      \* UCI discipline for a further go
+                /\ (Disciplined => (TotalBests = goSent \/ stopSince))   \* UCI discipline for a further go
   /\ inbox' = Append(inbox, c)
   /\ nsent' = nsent + 1
   /\ goSent' = IF IsGo(c) THEN goSent + 1 ELSE goSent
@@ -254,7 +255,7 @@ TypeOK ==
   /\ \A k \in Searches : bests[k] \in 0..2 /\ iters[k] \in 0..(MaxIter + 1)
 
 AtMostOneBest == \A k \in Searches : bests[k] <= 1
-NoGoRefused == refused = 0                                  \* go never dropped (given the GUI discipline)
+NoGoRefused == Disciplined => refused = 0                   \* go never dropped (given the GUI discipline)
 NoPanic == \A k \in Searches : pc[k] # "panicked"            \* search thread never dies without an answer
 InputAlive == mainpc # "dead"                                \* no line kills the engine
 OneSearchAtATime == Cardinality({k \in Searches : Live(k)}) <= 1
